@@ -24,6 +24,7 @@ Theorem C15_translation_matches_model : forall k e level n os_raw aff cg loky_en
   eff_gen k e level n = eff_model k e level n /\
   cpu_count os_raw aff cg loky_env false = Ok (cpu_count_model os_raw aff cg loky_env).
 Proof. exact C15_translation_matches_model_holds. Qed.
+Print Assumptions C15_translation_matches_model.
 
 (* a positive n_jobs is the number of workers, a negative one means cpus+1+n but at least 1; the result is
    >= 1 -- for every backend class, whenever no nesting guard fires (for all n <> 0 and all cpu counts) *)
@@ -33,21 +34,25 @@ Theorem C15_resolve : forall k e level n,
             v = match k with KSeq => 1
                 | _ => if n <? 0 then Z.max (e_cpus e + 1 + n) 1 else n end.
 Proof. exact C15_resolve_holds. Qed.
+Print Assumptions C15_resolve.
 
 (* with at least one usable CPU, a negative n_jobs never exceeds the CPU count *)
 Theorem C15_negative_le_cpus : forall k e level n v,
   n < 0 -> 1 <= e_cpus e -> eff_gen k e level n = Ok v -> 1 <= v <= e_cpus e.
 Proof. exact C15_negative_le_cpus_holds. Qed.
+Print Assumptions C15_negative_le_cpus.
 
 (* whatever the environment, a successful resolution is >= 1 *)
 Theorem C15_at_least_one : forall k e level n v, eff_gen k e level n = Ok v -> v >= 1.
 Proof. exact C15_at_least_one_holds. Qed.
+Print Assumptions C15_at_least_one.
 
 (* n_jobs = 0 is rejected with ValueError: by Sequential, Threading and Loky in EVERY environment, by
    Multiprocessing in every environment in which none of its nesting guards fires *)
 Theorem C15_zero_rejected : forall k e level,
   (k = KMp -> unguarded e level) -> eff_gen k e level 0 = Raise ValueError.
 Proof. exact C15_zero_rejected_holds. Qed.
+Print Assumptions C15_zero_rejected.
 
 (* full statement "effective_n_jobs(0) raises ValueError in every backend and every environment" is FALSE of the code:
    MultiprocessingBackend.effective_n_jobs tests its nesting guards before n_jobs == 0 and answers 1
@@ -55,23 +60,27 @@ Proof. exact C15_zero_rejected_holds. Qed.
 Theorem C15_zero_rejected_refuted : exists e level,
   eff_gen KMp e level 0 = Ok 1.
 Proof. exact C15_zero_rejected_refuted_holds. Qed.
+Print Assumptions C15_zero_rejected_refuted.
 
 (* ... but a Parallel CALL with n_jobs = 0 is rejected by every backend in every environment: the sequential backend
    that MultiprocessingBackend falls back to is configured with the same n_jobs and rejects it *)
 Theorem C15_zero_rejected_by_parallel : forall b e, configure b e 0 = Raise ValueError.
 Proof. exact configure_zero. Qed.
+Print Assumptions C15_zero_rejected_by_parallel.
 
 (* n_jobs = 1 runs in the calling thread: every backend's configure falls back to SequentialBackend *)
 Theorem C15_one_is_sequential : forall b e,
   configure b e 1 = Ok ({| bkind := KSeq; blevel := blevel b |}, 1) /\
   forall s, worker_site s {| bkind := KSeq; blevel := blevel b |} = s.
 Proof. exact C15_one_is_sequential_holds. Qed.
+Print Assumptions C15_one_is_sequential.
 
 (* configure never invents workers: it keeps the resolved number, or falls back to sequential exactly when it is 1 *)
 Theorem C15_configure : forall b e n b' eff,
   configure b e n = Ok (b', eff) ->
   eff >= 1 /\ blevel b' = blevel b /\ ((bkind b' = KSeq /\ eff = 1) \/ (b' = b /\ eff <> 1)).
 Proof. exact configure_spec. Qed.
+Print Assumptions C15_configure.
 
 (* cpu_count() (regenerated): at least 1, never above a constraint that allows >= 1 CPU, and exactly the
    minimum of the constraints floored at 1.  aff = affinity, cg = cgroup quota, loky_env = LOKY_MAX_CPU_COUNT *)
@@ -81,6 +90,7 @@ Theorem C15_cpu_count : forall os_raw aff cg loky_env,
   v = Z.max 1 (Z.min (os_count os_raw) (Z.min (orelse aff (os_count os_raw))
                  (Z.min (orelse cg (os_count os_raw)) (orelse loky_env (os_count os_raw))))).
 Proof. exact C15_cpu_count_holds. Qed.
+Print Assumptions C15_cpu_count.
 
 (* process backends reached from a worker thread below level 0, or inside a daemonic process (a
    multiprocessing worker), or (multiprocessing) inside a loky worker, resolve to one worker: no new process *)
@@ -89,6 +99,7 @@ Theorem C15_nested_process_backend_is_sequential : forall e level n,
   ((e_daemon e = true \/ (e_main e = false /\ level <> 0)) -> eff_gen KLoky e level n = Ok 1) /\
   ((e_daemon e = true \/ e_depth e > 0 \/ (e_main e = false /\ level <> 0)) -> eff_gen KMp e level n = Ok 1).
 Proof. exact C15_nested_process_backend_is_sequential_holds. Qed.
+Print Assumptions C15_nested_process_backend_is_sequential.
 
 (* default nesting: level 0 -> threads, level >= 1 -> sequential; and for EVERY tree of nested calls
    that leave the backend to the defaults (induction on the tree):
@@ -104,16 +115,19 @@ Theorem C15_nesting :
      procs (top_site cpus) (Call None n children) = resolve cpus n) /\
   (forall c cpus, default_tree c = true -> procs (top_site cpus) c = frontier cpus c).
 Proof. exact C15_nesting_holds. Qed.
+Print Assumptions C15_nesting.
 
 (* non-vacuity: hypotheses of the implications above are satisfiable, on non-trivial data *)
 Example C15_example_env : unguarded {| e_mp_none := false; e_cpus := 16; e_daemon := false; e_depth := 0; e_main := true |} 0.
 Proof. unfold unguarded; cbn; repeat split; auto; lia. Qed.
+Print Assumptions C15_example_env.
 
 Example C15_example_resolve :
   let e := {| e_mp_none := false; e_cpus := 16; e_daemon := false; e_depth := 0; e_main := true |} in
   eff_gen KLoky e 0 (-3) = Ok 14 /\ eff_gen KThr e 0 (-40) = Ok 1 /\ eff_gen KMp e 0 5 = Ok 5 /\
   cpu_count (Some 16) (Some 6) None (Some 0) false = Ok 1 /\ cpu_count (Some 16) (Some 6) (Some 3) (Some 1000) false = Ok 3.
 Proof. vm_compute. repeat split; reflexivity. Qed.
+Print Assumptions C15_example_resolve.
 
 (* a depth-3 tree of default calls below a 4-worker top-level call: 4 processes, nothing more;
    the same tree with an explicitly requested loky backend inside a worker's main thread does multiply *)
@@ -127,3 +141,4 @@ Proof.
   split; [reflexivity|]. split; [|split; vm_compute; reflexivity].
   exists {| bkind := KThr; blevel := 1 |}. cbn. split; [reflexivity|]. split; [left; reflexivity|lia].
 Qed.
+Print Assumptions C15_example_tree.
